@@ -42,6 +42,66 @@ def is_marker(t):
     return t[0] == "F"
 
 
+def upstream_completion(ops, events):
+    """Index of the event at which the operators `ops` (source side first) complete their downstream by
+    themselves (take n: with the n-th item it lets through; take_while p: with the first item failing p), or
+    None.  Only the family of OPS; anything else: None (no claim)."""
+    state = []
+    for o in ops:
+        if o[0] == "take":
+            state.append(int(o[1]))
+        elif o[0] == "skip":
+            state.append(int(o[1]))
+        else:
+            state.append(None)
+        if o[0] not in ("map", "filter", "take", "skip", "takewhile", "last", "dflt", "takelast", "skiplast", "fin"):
+            return None
+    for i, ev in enumerate(events):
+        if ev[0] != "emit":
+            if ev[0] == "unsub":
+                return None
+            continue
+        if not (isinstance(ev[1], list) and ev[1][0] == "n"):
+            return None               # a source terminal: the script's own trigger
+        v = int(ev[1][1])
+        alive = True
+        for j, o in enumerate(ops):
+            if not alive:
+                break
+            h = o[0]
+            if h == "map":
+                v = v + 1 if o[1] == "add1" else v
+                if o[1] not in ("add1", "add0"):
+                    return None
+            elif h == "filter":
+                if o[1] == "even":
+                    alive = v % 2 == 0
+                elif o[1] != "true":
+                    return None
+            elif h == "take":
+                if state[j] == 0:
+                    return None       # take(0) never completes by itself (spec decision)
+                state[j] -= 1
+                if state[j] == 0:
+                    return i
+            elif h == "skip":
+                if state[j] > 0:
+                    state[j] -= 1
+                    alive = False
+            elif h == "takewhile":
+                if o[1] != "lt2":
+                    return None
+                if not v < 2:
+                    return i
+            elif h in ("last", "takelast", "skiplast", "dflt"):
+                if h == "skiplast":
+                    return None       # delays items: not simulated
+                alive = False         # holds everything until the source completes
+            elif h == "fin":
+                pass
+    return None
+
+
 class C15(Prop):
     pid = "C15"
     lean_module = "RxModel.Props.C15"
@@ -211,6 +271,7 @@ class C15(Prop):
                 first = i
                 break
 
+        script_first = first
         for pos, e in enumerate(chain):
             if e[0] != "fin":
                 continue
@@ -218,6 +279,12 @@ class C15(Prop):
             m = marker(k)
             where = [i for i, t in flat if t == m]
             early_up = any(x[0] in EARLY for x in chain[:pos])
+            # an operator between the source and this finalizer that completes by itself is a trigger too:
+            # its `complete` reaches the finalizer's observer like the source's would
+            first = script_first
+            up = upstream_completion(chain[:pos], case.events)
+            if up is not None and (first is None or up < first):
+                first = up
             # never twice
             if len(where) > 1:
                 return {"kind": "twice", "event": where[1], "detail": f"{m} ran {len(where)} times"}
@@ -227,6 +294,7 @@ class C15(Prop):
             # exactly once, right after the first trigger
             if first is not None and (not where or where[0] > first):
                 return {"kind": "not-run-at-trigger", "event": first, "pos": pos,
+                        "trigger": "upstream" if first != script_first else "script",
                         "detail": f"{m} " + ("never ran" if not where else f"ran only at event {where[0]}") +
                                   f" although event {first} ({sx.show(case.events[first])}) ends the subscription"}
             if where:
@@ -288,6 +356,10 @@ class C15(Prop):
             # an operator between the finalizer and the probe that completes by itself?
             pos = failure.get("pos", 0)
             shape = "early-op-downstream" if any(e[0] in EARLY for e in chain[pos + 1:]) else shape
+            if failure.get("trigger") == "upstream":
+                # the terminal comes from an operator ABOVE the finalizer, not from the subject (which is what
+                # the known finding is about): a different violation
+                shape = "upstream-completion"
         return f"{failure['kind']}|finalize|{shape}"
 
     def shrink_candidates(self, case):
